@@ -56,3 +56,10 @@ A(M("c14-r5-module-attr-normal-path", "C14", CM, "        if solver is not None:
 A(M("c14-r5-class-attr-counter", "C14", CM, "        # if PuLP solvers are not installed, use FCFS\n        if solver is None:\n            return self.fcfs\n", "        # if PuLP solvers are not installed, use FCFS\n        if solver is None:\n            BpSeq.fallbacks = getattr(BpSeq, \"fallbacks\", 0) + 1\n            return self.fcfs\n", "shared-state"))
 A(M("c14-r5-environ-write", "C14", AN, "    file = handle_input_file(args.input)\n    structure3d = read_3d_structure(file, None)\n    structure2d, dot_brackets = extract_secondary_structure(", "    os.environ[\"RNAPOLIS_LAST_INPUT\"] = args.input\n    file = handle_input_file(args.input)\n    structure3d = read_3d_structure(file, None)\n    structure2d, dot_brackets = extract_secondary_structure(", "shared-state"))
 A(M("c14-r5-local-copy-attr-silent", "C14", CM, "        if solver is not None:\n            solver.msg = False\n", "        if solver is not None:\n            solver = solver.copy() if hasattr(solver, \"copy\") else solver\n            solver.msg = False\n", kind="silent"))
+
+# ---- C14: an in-place numpy operation through an alias of an array kept per object (sa/alias.py; stored instance: C18-m)
+MEAN = "        coordinates = [atom.coordinates for atom in base_atoms]\n        return numpy.mean(coordinates, axis=0)\n"
+A(M("c14-r5-centroid-accumulates-in-atom", ["C14", "C18"], TT, MEAN, "        total = base_atoms[0].coordinates\n        for atom in base_atoms[1:]:\n            total += atom.coordinates\n        return total / len(base_atoms)\n", "borrowed-array-write"))
+A(M("c14-r5-centroid-out-parameter", ["C14", "C18"], TT, MEAN, "        coordinates = [atom.coordinates for atom in base_atoms]\n        return numpy.mean(coordinates, axis=0, out=base_atoms[0].coordinates)\n", "borrowed-array-write"))
+A(M("c14-r5-centroid-own-copy-silent", ["C14", "C18"], TT, MEAN, "        total = base_atoms[0].coordinates.copy()\n        for atom in base_atoms[1:]:\n            total += atom.coordinates\n        return total / len(base_atoms)\n", kind="silent"))
+A(M("c14-r5-centroid-zeros-silent", ["C14", "C18"], TT, MEAN, "        total = numpy.zeros(3)\n        for atom in base_atoms:\n            total += atom.coordinates\n        return total / len(base_atoms)\n", kind="silent"))
